@@ -53,6 +53,9 @@ impl Sink {
             self.events.lock().unwrap().push(t);
         }
     }
+    pub fn len(&self) -> usize {
+        self.events.lock().unwrap().len()
+    }
     pub fn take(&self) -> Vec<Tr> {
         std::mem::take(&mut *self.events.lock().unwrap())
     }
